@@ -134,6 +134,7 @@ func main() {
 	genBufferCodecs()
 	genBufferVC()
 	genOtherVC()
+	genLoop()
 }
 
 // exprString / stmtsString: canonical whitespace-free rendering of AST fragments used for shape matching.
